@@ -1,10 +1,12 @@
 SPECIFICATION Spec
 CONSTANTS KnownDevs = {}
 INVARIANTS
+  Up4Envelope
   InEnvelope
   EnvDistinctMatchKeys
   C08_FilterMeansWhatItSays
   C08_PfdTableReplacedOrKept
+  C08_Up4ApplicationsMeanWhatTheySay
   C08_ProvisionedApplicationUsable
   C02_ExactlyOneResponse
 POSTCONDITION TraceAccepted
